@@ -5,6 +5,7 @@ import XyzModel.Value
 import XyzModel.Crop
 import XyzModel.ToDs
 import XyzModel.Sampler
+import XyzModel.CropFS
 /-! JSON-lines driver over the executable models (DESIGN.md Appendix B). One request per line, one reply per line. -/
 open Lean
 
@@ -190,6 +191,32 @@ def opToDs (j : Json) : Json :=
     | .error e => err (coreErr e)
     | .ok ds => dsJson kind ds
 
+/-! ### file-system traces -/
+
+def evOf (j : Json) : FS.Ev :=
+  let pid := getNat j "pid"
+  match getStr j "op" with
+  | "openw" => .openw pid (getStr j "p") (getBool j "trunc")
+  | "write" => .write pid (getStr j "p") (getNat j "n")
+  | "close" => .close pid (getStr j "p")
+  | "rename" => .rename pid (getStr j "p") (getStr j "q")
+  | "unlink" => .unlink pid (getStr j "p")
+  | _ => .other pid
+
+def baseName (p : String) : String := (p.splitOn "/").getLast!
+
+/-- final names: crop files (`xyz-…` in the crop directory) and the listed data files -/
+def isFinalOf (dataFiles : List String) (p : String) : Bool :=
+  (baseName p).startsWith "xyz-" || dataFiles.contains p
+
+def opFsTrace (j : Json) : Json :=
+  let evs := (getArr j "events").map evOf
+  let fin := isFinalOf (strList j "data_files")
+  let st := FS.replay evs
+  Json.mkObj [("atomic", toJson (FS.atomicPublisher fin evs)),
+              ("first_bad", match FS.firstBad fin [] evs 0 with | some i => toJson i | none => Json.null),
+              ("files", Json.mkObj (st.map fun (p, f) => (p, Json.mkObj [("size", toJson f.size), ("open", toJson f.openW)])))]
+
 /-! ### sampler histories -/
 
 def rowsJson (kind : Value.Val) (t : Option (List (Sampler.Row Sym))) : Json :=
@@ -354,6 +381,7 @@ def handle (j : Json) : Json :=
   | "crop" => opCrop j
   | "tods" => opToDs j
   | "sampler" => opSampler j
+  | "fstrace" => opFsTrace j
   | "ping" => Json.mkObj [("pong", true)]
   | o => err s!"bad-op {o}"
 
